@@ -6,16 +6,16 @@ import numpy as np
 from vlib import enc
 
 
-def _observe(cd, toff=0):
+def _observe(cd, toff=0, tscale=1.0):
     o = {"exc": ""}
     try:
         o["observable"] = enc.ints(cd.observable())
         g = cd.grid.grid()
-        o["time"] = enc.ints(np.asarray(g["time"], dtype=float) - toff)
+        o["time"] = enc.ints(np.rint((np.asarray(g["time"], dtype=float) - toff) / tscale).astype(int))
         o["lat"] = enc.ints(g["lat"])
         o["lon"] = enc.ints(g["lon"])
         w = cd.window()
-        o["window"] = [int(w[k] - (toff if k.startswith("time") else 0))
+        o["window"] = [int(np.rint((w[k] - toff) / tscale)) if k.startswith("time") else int(w[k])
                        for k in ("time_min", "time_max", "lat_min", "lat_max", "lon_min", "lon_max")]
         o["phase_indices"] = enc.ints(cd.phase_indices())
         o["phase_mean"] = enc.arr(cd.phase_mean())
@@ -43,16 +43,22 @@ def run_case(c):
     # 2^21 - a record in "hours since ..." - and translated back in what is recorded: the window semantics
     # do not depend on the origin of the time axis
     import zlib
-    toff = 2097152.0 if zlib.crc32(c["case"].encode()) % 3 == 0 else 0.0
-    grid = GeoGrid(np.array(d["time"], dtype=float) + toff, np.array(d["lat"], dtype=float),
+    pick = zlib.crc32(c["case"].encode()) % 3
+    toff = 2097152.0 if pick == 0 else 0.0
+    # ... and every third with a DECIMAL time axis (t -> 1950 + (t + 1) / 24: mid-month dates in years, none of
+    # them representable in single precision); bounds on a sample are the sample's own double value
+    tscale = 1.0
+    if pick == 1:
+        toff, tscale = 1950.0 + 1.0 / 24.0, 1.0 / 24.0
+    grid = GeoGrid(np.array(d["time"], dtype=float) * tscale + toff, np.array(d["lat"], dtype=float),
                    np.array(d["lon"], dtype=float), silence_level=3)
     obs, rep = enc.represent(d["obs"], c["case"])
     cd = ClimateData(obs, grid, d["cycle"], anomalies=bool(d["anom"]), silence_level=3)
-    events = [{"op": "construct"}, _observe(cd, toff)]
+    events = [{"op": "construct"}, _observe(cd, toff, tscale)]
     for s in c["steps"]:
         if s["op"] == "set_window":
             w = s["w"]
-            cd.set_window({"time_min": float(w["tmin"]) + toff, "time_max": float(w["tmax"]) + toff,
+            cd.set_window({"time_min": float(w["tmin"]) * tscale + toff, "time_max": float(w["tmax"]) * tscale + toff,
                            "lat_min": float(w["latmin"]), "lat_max": float(w["latmax"]),
                            "lon_min": float(w["lonmin"]), "lon_max": float(w["lonmax"])})
         elif s["op"] == "set_window_current":
@@ -60,10 +66,10 @@ def run_case(c):
         else:
             cd.set_global_window()
         events.append(s)
-        events.append(_observe(cd, toff))
+        events.append(_observe(cd, toff, tscale))
     rec = dict(c)
     rec["events"] = events
-    rec["repr"] = rep + (",time_offset" if toff else "")
+    rec["repr"] = rep + (",decimal_time" if pick == 1 else ",time_offset" if toff else "")
     return rec
 
 
